@@ -37,15 +37,29 @@ def eval_call(I, node, frame):
                 return I.eval(node.args[0], frame)
             finally:
                 I.in_old = saved
-        if fn.id in ('forall', 'exists') and I.spec:
+        if fn.id in ('forall', 'exists') and (I.spec or frame.module == 'ghost'):
             return eval_quant(I, node, frame, fn.id)
-        if fn.id == 'implies' and I.spec:
+        if fn.id == 'implies' and (I.spec or frame.module == 'ghost'):
             a = I.truth(I.eval(node.args[0], frame))
             b = I.truth(I.eval(node.args[1], frame))
             return mk_bool(z3.Implies(a, b))
         if fn.id == 'ite' and I.spec:
             c = I.truth(I.eval(node.args[0], frame))
             return I.ite_sv(c, I.eval(node.args[1], frame), I.eval(node.args[2], frame), node)
+        if fn.id == 'use' and frame.module == 'ghost':
+            # use(<lemma schema>(args)): instantiate a named lemma schema (specs/oracles.py @axiom) at these terms
+            a0 = node.args[0]
+            if not (isinstance(a0, ast.Call) and isinstance(a0.func, ast.Name)
+                    and a0.func.id in I.registry.axiom_schemas):
+                I.oos(node, "use() takes an instance of a registered lemma schema")
+            saved = I.spec
+            I.spec = True
+            try:
+                t = I.truth(I.eval(a0, frame))
+            finally:
+                I.spec = saved
+            I.path.hints.append(t)
+            return mk_bool(True)
         if fn.id == 'is_none' and I.spec:
             return mk_bool(spec_is_none(I, node.args[0], frame))
         if fn.id == 'super':
@@ -98,7 +112,12 @@ def eval_quant(I, node, frame, which):
         lo = as_int_term(I.eval(node.args[1], frame))
         hi = as_int_term(I.eval(node.args[2], frame))
         guards = [lo <= bvars[0], bvars[0] < hi]
-    body = I.truth(I.eval(lam.body, f2))
+    saved_spec = I.spec
+    I.spec = True          # quantifier bodies are always spec expressions (total, no forking)
+    try:
+        body = I.truth(I.eval(lam.body, f2))
+    finally:
+        I.spec = saved_spec
     pats = None
     for kw in node.keywords:
         if kw.arg == 'pattern':
@@ -612,7 +631,9 @@ def b_list(I, slf, args, kw, node):
         return eval_genexp_list(I, x)
     if x.kind in ('clist', 'tuple'):
         return SV('clist', list(x.t))
-    if x.kind in ('slist', 'items_view', 'gen'):
+    if x.kind == 'gen':
+        return x.t
+    if x.kind in ('slist', 'items_view'):
         return x
     I.oos(node, f"list({x.kind})")
 
@@ -758,5 +779,15 @@ BUILTINS = {
     'list.index': b_list_index, 'slist.index': b_slist_index, 'dict.get': b_dict_get, 'dict.items': b_dict_items,
     'dict.keys': b_dict_keys, 'dict.values': b_dict_values, 'dict': b_dict,
 }
+
+
+def _install_source_models():
+    from . import externals
+    BUILTINS['source.read'] = externals.source_read
+    BUILTINS['source.recv'] = externals.source_read
+    BUILTINS['source.seek'] = externals.source_seek
+
+
+_install_source_models()
 BUILTIN_NAMES = {'len', 'isinstance', 'int', 'float', 'bool', 'str', 'bytes', 'type', 'getattr', 'min', 'max',
                  'range', 'list', 'tuple', 'all', 'any', 'sum', 'abs', 'dict'}
